@@ -1178,16 +1178,16 @@ theorem and3_swap (a b c : V3) : and3 (and3 a b) (and3 c d) = and3 (and3 a c) (a
   rcases a with _ | _ | _ <;> rcases b with _ | _ | _ <;> rcases c with _ | _ | _ <;> rcases d with _ | _ | _ <;> rfl
 
 mutual
-theorem prepOld_good (v : Val) : ∀ (e : Expr) (neg conj inList : Bool) (h : List (List String)) (r : Option Expr),
-    valid e = true → (∀ b ∈ sites neg conj e, b = true) → prepOld false neg inList e = some (h, r) →
+theorem prep_good (v : Val) : ∀ (e : Expr) (neg conj inList : Bool) (h : List (List String)) (r : Option Expr),
+    valid e = true → (∀ b ∈ sites neg conj e, b = true) → prep false neg inList e = some (h, r) →
     PrepGood v neg conj inList e h r
   | .cmp l op ro, neg, conj, inList, h, r, _, _, hp => by
-    simp only [prepOld, Option.some.injEq, Prod.mk.injEq] at hp
+    simp only [prep, Option.some.injEq, Prod.mk.injEq] at hp
     obtain ⟨rfl, rfl⟩ := hp
     exact ⟨by simp [allK, evalOpt, and3_true_left], fun _ => ⟨_, rfl⟩, fun _ => ⟨rfl, _, rfl, rfl⟩, by simp [sites],
       by intro op hh; simp at hh, by simp⟩
   | .isNull l b, neg, conj, inList, h, r, _, _, hp => by
-    simp only [prepOld, Option.some.injEq, Prod.mk.injEq] at hp
+    simp only [prep, Option.some.injEq, Prod.mk.injEq] at hp
     obtain ⟨rfl, rfl⟩ := hp
     exact ⟨by simp [allK, evalOpt, and3_true_left], fun _ => ⟨_, rfl⟩, fun _ => ⟨rfl, _, rfl, rfl⟩, by simp [sites],
       by intro op hh; simp at hh, by simp⟩
@@ -1196,9 +1196,9 @@ theorem prepOld_good (v : Val) : ∀ (e : Expr) (neg conj inList : Bool) (h : Li
     · -- hoisted
       have hflag : (conj && !(a && decide (2 ≤ ks.length))) = true := hs _ (by simp [sites, hc])
       cases inList with
-      | false => simp [prepOld, hc] at hp
+      | false => simp [prep, hc] at hp
       | true =>
-        simp only [prepOld, hc, if_true, Option.some.injEq, Prod.mk.injEq] at hp
+        simp only [prep, hc, if_true, Option.some.injEq, Prod.mk.injEq] at hp
         obtain ⟨rfl, rfl⟩ := hp
         simp only [Bool.and_eq_true, decide_eq_true_eq] at hc
         have hks : ks ≠ [] := by
@@ -1217,20 +1217,20 @@ theorem prepOld_good (v : Val) : ∀ (e : Expr) (neg conj inList : Bool) (h : Li
             | nil => simp [evalKinds, op3, unit3]; rcases v.kind edgeSym k with _ | _ | _ <;> rfl
             | cons k' ks'' => simp at hflag
     · have hc' : (ref = edgeSym && !neg) = false := by simpa using hc
-      simp only [prepOld, hc', Bool.false_eq_true, if_false, Option.some.injEq, Prod.mk.injEq] at hp
+      simp only [prep, hc', Bool.false_eq_true, if_false, Option.some.injEq, Prod.mk.injEq] at hp
       obtain ⟨rfl, rfl⟩ := hp
       exact ⟨by simp [allK, evalOpt, and3_true_left], fun _ => ⟨_, rfl⟩, fun _ => ⟨rfl, _, rfl, rfl⟩, by simp [sites, hc'],
         by intro op hh; simp at hh, by simp⟩
   | .neg c, neg, conj, inList, h, r, hv, hs, hp => by
     simp only [valid] at hv
-    simp only [prepOld] at hp
-    cases hq : prepOld false true false c with
+    simp only [prep] at hp
+    cases hq : prep false true false c with
     | none => simp [hq] at hp
     | some p =>
       obtain ⟨h0, r0⟩ := p
       simp only [hq, Option.some.injEq, Prod.mk.injEq] at hp
       obtain ⟨rfl, rfl⟩ := hp
-      have g := prepOld_good v c true false false h0 r0 hv (by simp [sites_neg]) hq
+      have g := prep_good v c true false false h0 r0 hv (by simp [sites_neg]) hq
       obtain ⟨rfl, c', rfl, _⟩ := g.nos (sites_neg c false)
       have hev := g.ev
       simp only [allK, evalOpt, and3_true_left] at hev
@@ -1239,14 +1239,14 @@ theorem prepOld_good (v : Val) : ∀ (e : Expr) (neg conj inList : Bool) (h : Li
         by intro op hh; simp [negExit] at hh, by simp⟩
   | .paren c, neg, conj, inList, h, r, hv, hs, hp => by
     simp only [valid] at hv
-    simp only [prepOld] at hp
-    cases hq : prepOld false neg false c with
+    simp only [prep] at hp
+    cases hq : prep false neg false c with
     | none => simp [hq] at hp
     | some p =>
       obtain ⟨h0, r0⟩ := p
       simp only [hq, Option.some.injEq, Prod.mk.injEq] at hp
       obtain ⟨rfl, rfl⟩ := hp
-      have g := prepOld_good v c neg conj false h0 r0 hv (by simpa [sites] using hs) hq
+      have g := prep_good v c neg conj false h0 r0 hv (by simpa [sites] using hs) hq
       obtain ⟨c', rfl⟩ := g.keep rfl
       have hev := g.ev
       simp only [evalOpt] at hev
@@ -1302,15 +1302,15 @@ theorem prepOld_good (v : Val) : ∀ (e : Expr) (neg conj inList : Bool) (h : Li
         | .paren _, hh => simp [parenExit] at hh
   | .join op es, neg, conj, inList, h, r, hv, hs, hp => by
     simp only [valid, Bool.and_eq_true, Bool.not_eq_true', List.isEmpty_eq_false_iff] at hv
-    simp only [prepOld] at hp
-    cases hq : prepListOld false neg es with
+    simp only [prep] at hp
+    cases hq : prepList false neg es with
     | none => simp [hq] at hp
     | some p =>
       obtain ⟨h0, es'⟩ := p
       simp only [hq, Option.some.injEq, Prod.mk.injEq] at hp
       obtain ⟨rfl, rfl⟩ := hp
       have hs' : ∀ b ∈ sitesList neg (conj && decide (op = .and)) es, b = true := by simpa [sites] using hs
-      have g := prepListOld_good v es neg (conj && decide (op = .and)) h0 es' hv.2 hs' hq
+      have g := prepList_good v es neg (conj && decide (op = .and)) h0 es' hv.2 hs' hq
       have hlen : es.length ≠ 0 := by
         intro hh; exact hv.1 (List.length_eq_zero_iff.mp hh)
       by_cases hc : (conj && decide (op = .and)) = true
@@ -1355,20 +1355,20 @@ theorem prepOld_good (v : Val) : ∀ (e : Expr) (neg conj inList : Bool) (h : Li
         · intro op' hh
           simp only [joinExit, hne, Bool.false_and, Bool.false_eq_true, if_false, Option.some.injEq, Expr.join.injEq] at hh
           rw [hh.2] at hne; simp at hne
-theorem prepListOld_good (v : Val) : ∀ (es : List Expr) (neg c : Bool) (h : List (List String)) (es' : List Expr),
-    valids es = true → (∀ b ∈ sitesList neg c es, b = true) → prepListOld false neg es = some (h, es') →
+theorem prepList_good (v : Val) : ∀ (es : List Expr) (neg c : Bool) (h : List (List String)) (es' : List Expr),
+    valids es = true → (∀ b ∈ sitesList neg c es, b = true) → prepList false neg es = some (h, es') →
     PrepGoodList v neg c es h es'
   | [], neg, c, h, es', _, _, hp => by
-    simp only [prepListOld, Option.some.injEq, Prod.mk.injEq] at hp
+    simp only [prepList, Option.some.injEq, Prod.mk.injEq] at hp
     obtain ⟨rfl, rfl⟩ := hp
     exact ⟨by simp [sitesList], by simp, fun _ => ⟨rfl, rfl, fun _ => rfl⟩, fun _ => by simp [allK, and3_true_left]⟩
   | e :: es, neg, c, h, es', hv, hs, hp => by
     simp only [valids_cons, Bool.and_eq_true] at hv
-    simp only [prepListOld] at hp
-    cases hq : prepOld false neg true e with
+    simp only [prepList] at hp
+    cases hq : prep false neg true e with
     | none => simp [hq] at hp
     | some p =>
-      cases hq2 : prepListOld false neg es with
+      cases hq2 : prepList false neg es with
       | none => simp [hq, hq2] at hp
       | some q =>
         obtain ⟨h1, r1⟩ := p
@@ -1377,8 +1377,8 @@ theorem prepListOld_good (v : Val) : ∀ (es : List Expr) (neg c : Bool) (h : Li
         obtain ⟨rfl, rfl⟩ := hp
         have hs1 : ∀ b ∈ sites neg c e, b = true := fun b hb => hs b (by simp [sitesList, hb])
         have hs2 : ∀ b ∈ sitesList neg c es, b = true := fun b hb => hs b (by simp [sitesList, hb])
-        have g1 := prepOld_good v e neg c true h1 r1 hv.1 hs1 hq
-        have g2 := prepListOld_good v es neg c h2 rs hv.2 hs2 hq2
+        have g1 := prep_good v e neg c true h1 r1 hv.1 hs1 hq
+        have g2 := prepList_good v es neg c h2 rs hv.2 hs2 hq2
         refine ⟨by simp [sitesList, g1.len, g2.len], ?_, ?_, ?_⟩
         · intro ks hks
           simp only [List.mem_append] at hks
@@ -1420,7 +1420,7 @@ end
 
 /-! ## Prepare as it is (fix7): meaning preserved for every valid term -/
 
-structure PrepLive (v : Val) (busy neg conj inList : Bool) (e : Expr) (h : List (List String)) (r : Option Expr) : Prop where
+structure PrepFix7 (v : Val) (busy neg conj inList : Bool) (e : Expr) (h : List (List String)) (r : Option Expr) : Prop where
   ev : and3 (allK v h) (evalOpt v r) = eval v e
   keep : inList = false → ∃ e', r = some e'
   len : h.length ≤ 1
@@ -1429,28 +1429,28 @@ structure PrepLive (v : Val) (busy neg conj inList : Bool) (e : Expr) (h : List 
   emp : ∀ op, r = some (.join op []) → op = .and
   ne : ∀ ks ∈ h, ks ≠ []
 
-structure PrepLiveList (v : Val) (busy neg c : Bool) (es : List Expr) (h : List (List String)) (es' : List Expr) : Prop where
+structure PrepFix7List (v : Val) (busy neg c : Bool) (es : List Expr) (h : List (List String)) (es' : List Expr) : Prop where
   len : h.length ≤ 1
   ne : ∀ ks ∈ h, ks ≠ []
   nohoist : (busy = true ∨ neg = true ∨ c = false) → h = []
   same : h = [] → es'.length = es.length ∧ ∀ op, evalList v op es' = evalList v op es
   ev : c = true → and3 (allK v h) (evalList v .and es') = evalList v .and es
 
-theorem prep_unchanged (v : Val) (e : Expr) (busy neg conj inList : Bool) (hne : isEmptyJoin e = false) :
-    PrepLive v busy neg conj inList e [] (some e) :=
+theorem prepFix7_unchanged (v : Val) (e : Expr) (busy neg conj inList : Bool) (hne : isEmptyJoin e = false) :
+    PrepFix7 v busy neg conj inList e [] (some e) :=
   ⟨by simp [allK, evalOpt, and3_true_left], fun _ => ⟨_, rfl⟩, by simp, fun _ => rfl, fun _ => ⟨_, rfl, hne⟩,
     by intro op hh; simp only [Option.some.injEq] at hh; rw [hh] at hne; simp [isEmptyJoin] at hne, by simp⟩
 
 mutual
-theorem prep_live (v : Val) : ∀ (e : Expr) (busy neg conj inList : Bool), valid e = true →
-    PrepLive v busy neg conj inList e (prep false busy neg conj inList e).1 (prep false busy neg conj inList e).2
+theorem prepFix7_good (v : Val) : ∀ (e : Expr) (busy neg conj inList : Bool), valid e = true →
+    PrepFix7 v busy neg conj inList e (prepFix7 false busy neg conj inList e).1 (prepFix7 false busy neg conj inList e).2
   | .cmp l op ro, busy, neg, conj, inList, _ => by
-    simpa [prep] using prep_unchanged v (.cmp l op ro) busy neg conj inList rfl
+    simpa [prepFix7] using prepFix7_unchanged v (.cmp l op ro) busy neg conj inList rfl
   | .isNull l b, busy, neg, conj, inList, _ => by
-    simpa [prep] using prep_unchanged v (.isNull l b) busy neg conj inList rfl
+    simpa [prepFix7] using prepFix7_unchanged v (.isNull l b) busy neg conj inList rfl
   | .kinds ref ks a, busy, neg, conj, inList, hv => by
     by_cases hc : (ref = edgeSym && !neg && conj && inList && !busy && !(a && decide (2 ≤ ks.length))) = true
-    · simp only [prep, hc, if_true]
+    · simp only [prepFix7, hc, if_true]
       simp only [Bool.and_eq_true, decide_eq_true_eq, Bool.not_eq_true'] at hc
       obtain ⟨⟨⟨⟨⟨href, hneg⟩, hconj⟩, hin⟩, hbusy⟩, hany⟩ := hc
       have hks : ks ≠ [] := by intro hh; simp [valid, hh] at hv
@@ -1473,27 +1473,27 @@ theorem prep_live (v : Val) : ∀ (e : Expr) (busy neg conj inList : Bool), vali
         · rw [hh] at hconj; cases hconj
       · intro op hh; simp at hh
     · have hc' : (ref = edgeSym && !neg && conj && inList && !busy && !(a && decide (2 ≤ ks.length))) = false := by simpa using hc
-      simp only [prep, hc', Bool.false_eq_true, if_false]
-      exact prep_unchanged v _ busy neg conj inList rfl
+      simp only [prepFix7, hc', Bool.false_eq_true, if_false]
+      exact prepFix7_unchanged v _ busy neg conj inList rfl
   | .neg c, busy, neg, conj, inList, hv => by
     simp only [valid] at hv
-    have g := prep_live v c busy true false false hv
+    have g := prepFix7_good v c busy true false false hv
     have hnil := g.nohoist (Or.inr (Or.inl rfl))
     obtain ⟨c', hc', _⟩ := g.same hnil
     have hev := g.ev
     simp only [hnil, hc', allK, evalOpt, and3_true_left] at hev
-    simp only [prep, hnil, hc', Option.getD_some, negExit, Bool.false_and, Bool.false_eq_true, if_false]
+    simp only [prepFix7, hnil, hc', Option.getD_some, negExit, Bool.false_and, Bool.false_eq_true, if_false]
     exact ⟨by simp [allK, evalOpt, and3_true_left, eval, hev], fun _ => ⟨_, rfl⟩, by simp, fun _ => rfl,
       fun _ => ⟨_, rfl, rfl⟩, by intro op hh; simp at hh, by simp⟩
   | .paren c, busy, neg, conj, inList, hv => by
     simp only [valid] at hv
-    have g := prep_live v c busy neg conj false hv
+    have g := prepFix7_good v c busy neg conj false hv
     obtain ⟨c', hc'⟩ := g.keep rfl
     have hev := g.ev
     have hemp := g.emp
     have hsame := g.same
     simp only [hc', evalOpt] at hev hemp hsame
-    simp only [prep, hc', Option.getD_some]
+    simp only [prepFix7, hc', Option.getD_some]
     refine ⟨?_, ?_, g.len, g.nohoist, ?_, ?_, g.ne⟩
     · match c', hev, hemp with
       | .join op [], hev, hemp =>
@@ -1543,11 +1543,11 @@ theorem prep_live (v : Val) : ∀ (e : Expr) (busy neg conj inList : Bool), vali
       | .paren _, hh => simp [parenExit] at hh
   | .join op es, busy, neg, conj, inList, hv => by
     simp only [valid, Bool.and_eq_true, Bool.not_eq_true', List.isEmpty_eq_false_iff] at hv
-    have g := prepList_live v es busy neg (conj && decide (op = .and)) hv.2
+    have g := prepListFix7_good v es busy neg (conj && decide (op = .and)) hv.2
     have hlen : es.length ≠ 0 := by
       intro hh; exact hv.1 (List.length_eq_zero_iff.mp hh)
-    simp only [prep]
-    generalize hp : prepList false busy neg (conj && decide (op = .and)) es = p at g
+    simp only [prepFix7]
+    generalize hp : prepListFix7 false busy neg (conj && decide (op = .and)) es = p at g
     obtain ⟨h0, es'⟩ := p
     simp only at g ⊢
     have hsameJ : h0 = [] → ∃ e', joinExit inList op es' = some e' ∧ isEmptyJoin e' = false := by
@@ -1591,20 +1591,20 @@ theorem prep_live (v : Val) : ∀ (e : Expr) (busy neg conj inList : Bool), vali
           have hn := g.nohoist (Or.inr (Or.inr hc'))
           obtain ⟨hl, _⟩ := g.same hn
           simp at hl; exact absurd hl.symm hlen
-theorem prepList_live (v : Val) : ∀ (es : List Expr) (busy neg c : Bool), valids es = true →
-    PrepLiveList v busy neg c es (prepList false busy neg c es).1 (prepList false busy neg c es).2
+theorem prepListFix7_good (v : Val) : ∀ (es : List Expr) (busy neg c : Bool), valids es = true →
+    PrepFix7List v busy neg c es (prepListFix7 false busy neg c es).1 (prepListFix7 false busy neg c es).2
   | [], busy, neg, c, _ => by
-    simp only [prepList]
+    simp only [prepListFix7]
     exact ⟨by simp, by simp, fun _ => rfl, fun _ => ⟨rfl, fun _ => rfl⟩, fun _ => by simp [allK, and3_true_left]⟩
   | e :: es, busy, neg, c, hv => by
     simp only [valids_cons, Bool.and_eq_true] at hv
-    have g1 := prep_live v e busy neg c true hv.1
-    simp only [prepList]
-    generalize hp : prep false busy neg c true e = p at g1
+    have g1 := prepFix7_good v e busy neg c true hv.1
+    simp only [prepListFix7]
+    generalize hp : prepFix7 false busy neg c true e = p at g1
     obtain ⟨h1, r1⟩ := p
     simp only at g1 ⊢
-    have g2 := prepList_live v es (busy || !h1.isEmpty) neg c hv.2
-    generalize hq : prepList false (busy || !h1.isEmpty) neg c es = q at g2
+    have g2 := prepListFix7_good v es (busy || !h1.isEmpty) neg c hv.2
+    generalize hq : prepListFix7 false (busy || !h1.isEmpty) neg c es = q at g2
     obtain ⟨h2, rs⟩ := q
     simp only at g2 ⊢
     have hone : h1 = [] ∨ h2 = [] := by
